@@ -519,6 +519,35 @@ def rule_h_report_loops_cover_the_ranges(ctx, fns):
     return n
 
 
+def rule_i_related_counts_defined(ctx, fns):
+    """The balanced-subsets reports add up num_related_view_segment_numbers / num_related_bins of the basic view/segments or bins.
+    Those functions compute their result in a local that the geometry branches fill in: it must be definitely assigned on every path to
+    the return (declaration with initialiser, or an assignment on every path) - F73: for BlocksOnCylindrical data the result was left
+    uninitialised on two paths."""
+    RULE = "C06.i-related-counts-defined-on-every-path"
+    n = 0
+    seen = set()
+    for f in sorted(fns, key=lambda g: bool(g.is_dependent)):
+        if not f.short.startswith("num_related") or f.body is None or not f.cfg_raw or (f.file, f.body.line) in seen:
+            continue
+        seen.add((f.file, f.body.line))
+        cfg = CFG(f)
+        defs = LocalDefs(f)
+        rets = [m for m in f.walk() if m.k == "ReturnStmt" and m.c and m.i in cfg.pos]
+        for d, vd in sorted(defs.decl.items()):
+            used = [r for r in rets if any(x.k == "DeclRefExpr" and x.get("d") == d for x in r.c[0].walk())]
+            if not used or vd.get("dk") == "param" or not re.fullmatch(r"(const )?(unsigned )?(int|long|float|double|bool)", (vd.get("t") or "").strip()):
+                continue
+            if vd.c:
+                ok = True
+            else:
+                ws = {w.i for w in defs.writes.get("v%d" % d, []) if w.i in cfg.pos}
+                ok = bool(ws) and cfg.must_pass_from_entry(used, lambda x, s_=ws: x.i in s_) is None
+            ctx.ob(RULE, f.qn, "result:" + (vd.name or "?"), ok, vd.where(), "`%s` has a value on every path to the return" % vd.name if ok else "`%s` is returned but on some path nothing was assigned to it (declared without initialiser): the count the balanced-subsets report adds up is whatever the memory contained" % vd.name)
+            n += 1
+    return n
+
+
 def run(ctx):
     ctx.explanation = (
         "Decides: (a) the subset enumeration lists each is_basic (view,segment) of the residue class view = min_view+subset_num mod "
@@ -577,6 +606,11 @@ def run(ctx):
         return
     rule_g_all_tof_bins(ctx, gu[0].functions, gu[1].functions)
     ctx.require_count("C06.g-all-tof-bins", 5)
+    ireq = Request("src/recon_buildblock/DataSymmetriesForBins_PET_CartesianGrid.cxx", fn=["stir::DataSymmetriesForBins_PET_CartesianGrid::num_related.*"], files=["/repo/src/include/stir/recon_buildblock/DataSymmetriesForBins_PET_CartesianGrid\\.inl", "/repo/src/recon_buildblock/DataSymmetriesForBins_PET_CartesianGrid\\.cxx"])
+    iu = ctx.ex.get(ireq)
+    if iu is not None:
+        rule_i_related_counts_defined(ctx, iu.functions)
+        ctx.require_count("C06.i-related-counts-defined-on-every-path", 1)
     hreq = Request("src/recon_buildblock/PoissonLogLikelihoodWithLinearModelForMeanAndListModeDataWithProjMatrixByBin.cxx", fn=["stir::PoissonLogLikelihoodWithLinearModelForMeanAndListModeDataWithProjMatrixByBin::actual_subsets_are_approximately_balanced"])
     hu = ctx.ex.get(hreq)
     if hu is not None:
